@@ -1,25 +1,7 @@
-#![allow(dead_code, unused_imports)]
-#![cfg_attr(feature = "nightly", feature(generic_const_exprs))]
-#![cfg_attr(feature = "nightly", allow(incomplete_features))]
 //! `check <ID> [--tier quick|thorough] [--seed N] | check <ID> --replay <file> | check selftest`
-mod engine;
-mod est;
-mod exact;
-mod gen;
-mod hist;
-mod oracle;
-mod p2ref;
-mod props;
-mod types;
-
-use engine::*;
-
-average::define_histogram!(h1, 1);
-average::define_histogram!(h2, 2);
-average::define_histogram!(h3, 3);
-average::define_histogram!(h4, 4);
-average::define_histogram!(h10, 10);
-average::define_histogram!(h100, 100);
+#![allow(dead_code, unused_imports)]
+use avg_verif::engine::*;
+use avg_verif::{oracle, props};
 use std::path::PathBuf;
 
 fn usage() -> ! {
@@ -45,6 +27,41 @@ fn main() {
             }
         }
     }
+    if args[0] == "fuzz-replay" {
+        // check fuzz-replay <target> <artifact file> [--root DIR]: decode a libFuzzer input, judge it strictly,
+        // and on failure write a replay file and print the VIOLATION line
+        let (target, file) = match (args.get(1), args.get(2)) {
+            (Some(t), Some(f)) => (t.clone(), f.clone()),
+            _ => usage(),
+        };
+        let root = PathBuf::from(args.iter().position(|a| a == "--root").and_then(|i| args.get(i + 1).cloned()).unwrap_or_else(|| std::env::var("VERIF_ROOT").unwrap_or_else(|_| "/verif".into())));
+        let data = match std::fs::read(&file) {
+            Ok(d) => d,
+            Err(e) => {
+                eprintln!("cannot read {}: {}", file, e);
+                std::process::exit(2)
+            }
+        };
+        match avg_verif::fuzzdec::run_target(&target, &data, &[]) {
+            None => {
+                println!("fuzz-replay {}: no property failed on this input", file);
+                std::process::exit(0)
+            }
+            Some(f) => {
+                let dir = root.join("replays").join(f.property);
+                let _ = std::fs::create_dir_all(&dir);
+                let mut h = Fp::new();
+                h.s(&String::from_utf8_lossy(&data));
+                let path = dir.join(format!("{}-fuzz-{:016x}.json", f.check, h.finish()));
+                let doc = serde_json::json!({"property": f.property, "check": f.check, "signature": f.fail.sig, "message": f.fail.msg,
+                    "found_by": format!("libFuzzer target {} (artifact {})", target, file), "case": f.case});
+                let _ = std::fs::write(&path, serde_json::to_string_pretty(&doc).unwrap());
+                println!("VIOLATION property={} replay={}", f.property, path.display());
+                println!("  check={} signature={} :: {}", f.check, f.fail.sig, f.fail.msg);
+                std::process::exit(1)
+            }
+        }
+    }
     let id = args[0].to_uppercase();
     let mut tier = match std::env::var("VERIF_TIER").as_deref() {
         Ok("thorough") => Tier::Thorough,
@@ -53,6 +70,7 @@ fn main() {
     let mut seed: u64 = std::env::var("VERIF_SEED").ok().and_then(|s| s.trim().parse::<i128>().ok()).map(|v| v as u64).unwrap_or(0);
     let mut root = PathBuf::from(std::env::var("VERIF_ROOT").unwrap_or_else(|_| "/verif".into()));
     let mut replay: Option<String> = None;
+    let mut write_evidence = true;
     let mut i = 1;
     while i < args.len() {
         match args[i].as_str() {
@@ -74,6 +92,7 @@ fn main() {
                 i += 1;
                 root = PathBuf::from(args.get(i).cloned().unwrap_or_else(|| usage()));
             }
+            "--no-evidence" => write_evidence = false,
             "--replay" => {
                 i += 1;
                 replay = Some(args.get(i).cloned().unwrap_or_else(|| usage()));
@@ -115,7 +134,8 @@ fn main() {
             }
         }
     }
-    let cx = Ctx::new(id_static, tier, seed, root);
+    let mut cx = Ctx::new(id_static, tier, seed, root);
+    cx.write_evidence = write_evidence;
     if !props::run(&id, &cx) {
         eprintln!("unknown property {}", id);
         std::process::exit(2);
